@@ -113,6 +113,21 @@ def register(m):
     m("C13", "b4-curve-element-refuses-spherical-only", ELEM,
       "    if trajectory.coordinate_system.coord_system_type != CoordinateSystem.System.CARTESIAN:\n        coord_name_from",
       "    if trajectory.coordinate_system.coord_system_type == CoordinateSystem.System.SPHERICAL:\n        coord_name_from", "J1")
+    TORS = "symplyphysics/laws/dynamics/period_of_torsion_pendulum_from_rotational_inertia.py"
+    DERIV = ("from sympy import solve, cos\nfrom symplyphysics import clone_as_function\n"
+             "from symplyphysics.laws.dynamics.deformation import rotational_stiffness_is_torque_over_angle as stiffness_law\n"
+             "from symplyphysics.laws.dynamics import torque_via_rotational_inertia_and_angular_acceleration as torque_law\n"
+             "_time = symbols.time\n_restoring_torque = clone_as_function(symbols.torque, [_time])\n_twist_angle = clone_as_function(symbols.angular_distance, [_time])\n"
+             "_restoring_torque_expr = -1 * solve(stiffness_law.law, stiffness_law.torque)[0].subs({\n"
+             "    stiffness_law.rotational_stiffness: torsion_stiffness,\n    stiffness_law.angular_distance: %s,\n})\n"
+             "_applied = torque_law.law.subs(torque_law.torque, _restoring_torque(_time)).subs({\n"
+             "    _restoring_torque(_time): _restoring_torque_expr,\n    _twist_angle(_time): cos(_time),\n}%s)\n")
+    TODO = "# TODO: derive from relation between restoring torque and twist angle\n"
+    m("C03", "b4-chain-through-solve-and-subs", TORS, TODO, DERIV % ("_twist_angle(_time)", ""), "I6",
+      note="seed b3_C03_2 (missed until the must-contain expansion learnt subs of a certainly present key and solve of a read-once law)")
+    m("C03", "b4-chain-through-solve-simultaneous-ok", TORS, TODO, DERIV % ("_twist_angle(_time)", ", simultaneous=True"), "SILENT")
+    m("C03", "b4-chain-through-solve-other-value-ok", TORS, TODO, DERIV % ("symbols.angular_distance", ""), "SILENT",
+      note="the value of the first entry does not contain the second key")
     # C09 N1: factories hand out fresh systems
     m("C09", "b2-transform-returns-argument", CSYS,
       ") -> CoordinateSystem:\n    new_coord_system = from_system.coord_system.create_new(",
